@@ -1,7 +1,131 @@
+(* C03 — property theorems only.  Each is closed by [exact lemma]; Print Assumptions beneath.
+   Model: Model/C03.v (hamming_circle, addBarcode, expand, getIndexCorrectedBarcodeAndHammingDistance,
+   lazy loading of singlecellmultiomics/barcodeFileParser/barcodeFileParser.py).
+   Vocabulary:
+     lines                 the (barcode, index) pairs of the barcode file in file order (repeats allowed,
+                           lengths may differ)
+     eager_tables k lines  the exact + extended tables of an eagerly loaded alias (expand only if k > 0)
+     lookup t q            getIndexCorrectedBarcodeAndHammingDistance(q, alias); None = (None, None, None)
+     index_of lines b      the index on the LAST line listing barcode b (dict semantics of addBarcode)
+     wf_lines / in_alphabet  every character is one of A C G T N *)
 From Coq Require Import ZArith List Bool Arith.
 Import ListNotations.
-From SCMO Require Import Lib.Val Model.C03 Proofs.C03.
+From SCMO Require Import Lib.Val Model.C03 Proofs.C03 Proofs.C03_b Proofs.C03_c.
+Open Scope Z_scope.
 
-Example C03_placeholder : hamming [65;67] [65;71] = 1%nat.
-Proof. exact placeholder. Qed.
-Print Assumptions C03_placeholder.
+(* hamming_circle(s, n, 'ACTGN') is exactly the Hamming sphere of radius n around s, each string once *)
+Theorem C03_circle_spec : forall s n x, Forall alpha s -> Forall alpha x ->
+  (In x (circle alphabet s n) <-> length x = length s /\ hamming x s = n).
+Proof. exact circle_spec. Qed.
+Print Assumptions C03_circle_spec.
+
+Theorem C03_circle_NoDup : forall s n, NoDup (circle alphabet s n).
+Proof. exact circle_nodup. Qed.
+Print Assumptions C03_circle_NoDup.
+
+(* expand never raises (no KeyError / IndexError) and leaves the exact table as loaded; any whitelist *)
+Theorem C03_expand_total : forall lines k, exists t, expand k (load lines) = Ok t /\ bcs t = bcs (load lines).
+Proof. exact expand_total. Qed.
+Print Assumptions C03_expand_total.
+
+(* MAIN.  For every whitelist over ACGTN (repeated lines and unequal lengths included), every k and every
+   observed string over ACGTN: the lookup returns (i, b, d) iff b is whitelisted, d = hamming q b <= k,
+   every other whitelisted barcode (of q's length) is strictly farther, and i is b's index. *)
+Theorem C03_assign_iff : forall lines k t q,
+  eager_tables k lines = Ok t -> wf_lines lines = true -> in_alphabet q = true ->
+  forall i b d,
+    lookup t q = Some (i, b, d) <->
+    (In b (map fst lines) /\ length q = length b /\ d = hamming q b /\ (d <= k)%nat /\
+     forall b', In b' (map fst lines) -> b' <> b -> length b' = length q -> (d < hamming q b')%nat)
+    /\ index_of lines b = Some i.
+Proof. exact eager_assign_iff. Qed.
+Print Assumptions C03_assign_iff.
+
+(* the same with all barcodes of the observed length and no barcode listed twice (the usual whitelist):
+   "(b, i) is a line of the file", no length side conditions *)
+Theorem C03_assign_iff_textbook : forall lines k t q,
+  eager_tables k lines = Ok t -> wf_lines lines = true -> in_alphabet q = true ->
+  NoDup (map fst lines) -> (forall b, In b (map fst lines) -> length b = length q) ->
+  forall i b d,
+    lookup t q = Some (i, b, d) <->
+    In (b, i) lines /\ d = hamming q b /\ (d <= k)%nat /\
+    forall b' i', In (b', i') lines -> b' <> b -> (d < hamming q b')%nat.
+Proof. exact assign_iff_textbook. Qed.
+Print Assumptions C03_assign_iff_textbook.
+
+(* the boolean predicates K measures imply the hypotheses of the textbook form *)
+Theorem C03_nodup_lines_spec : forall lines, nodup_lines lines = true -> NoDup (map fst lines).
+Proof. exact nodup_lines_spec. Qed.
+Print Assumptions C03_nodup_lines_spec.
+
+(* exact whitelist members map to themselves at distance 0 (any whitelist, any alphabet) *)
+Theorem C03_exact_self : forall lines k t b,
+  eager_tables k lines = Ok t -> In b (map fst lines) ->
+  exists i, index_of lines b = Some i /\ lookup t b = Some (i, b, 0%nat).
+Proof. exact exact_self. Qed.
+Print Assumptions C03_exact_self.
+
+(* equally close to two whitelist entries, nothing closer: never assigned *)
+Theorem C03_tie_none : forall lines k t q b1 b2,
+  eager_tables k lines = Ok t -> wf_lines lines = true -> in_alphabet q = true ->
+  In b1 (map fst lines) -> In b2 (map fst lines) -> b1 <> b2 ->
+  length b1 = length q -> length b2 = length q -> hamming q b1 = hamming q b2 ->
+  (forall b, In b (map fst lines) -> length b = length q -> (hamming q b1 <= hamming q b)%nat) ->
+  lookup t q = None.
+Proof. exact tie_none. Qed.
+Print Assumptions C03_tie_none.
+
+(* (None, None, None) iff no whitelisted barcode is the unique nearest one within k *)
+Theorem C03_none_iff : forall lines k t q,
+  eager_tables k lines = Ok t -> wf_lines lines = true -> in_alphabet q = true ->
+  (lookup t q = None <->
+   forall b d, ~ (In b (map fst lines) /\ length q = length b /\ d = hamming q b /\ (d <= k)%nat /\
+                  forall b', In b' (map fst lines) -> b' <> b -> length b' = length q -> (d < hamming q b')%nat)).
+Proof. exact none_iff. Qed.
+Print Assumptions C03_none_iff.
+
+(* lazily loaded alias: for every sequence of lookups the answers equal those of the eagerly loaded alias
+   (covers k = 0, where only the lazy path runs expand); the eager parser always exists (no exception) *)
+Theorem C03_lazy_eq_eager : forall lines k qs,
+  exists p, eager_init k lines = Some p /\ answers (lazy_init k lines) qs = answers p qs.
+Proof. exact lazy_eq_eager. Qed.
+Print Assumptions C03_lazy_eq_eager.
+
+(* the boolean specification evaluated by the check on the implementation's answers (run_C03 mode 2)
+   accepts exactly the answer of the lookup *)
+Theorem C03_specb_correct : forall lines k t q out,
+  eager_tables k lines = Ok t -> wf_lines lines = true -> in_alphabet q = true ->
+  (specb lines k q out = true <-> out = lookup t q).
+Proof. exact specb_correct. Qed.
+Print Assumptions C03_specb_correct.
+
+(* ---- non-vacuity: the whitelist of tests/test_barcodeFileParser.py plus an N-containing entry, a repeated
+   line and a shorter barcode; k = 2.  AAA=1 AAT=2 TTT=3 ANA=4 AAT=7 (again) GG=5 *)
+Definition ex_lines : list (str * Z) :=
+  [([65;65;65], 1); ([65;65;84], 2); ([84;84;84], 3); ([65;78;65], 4); ([65;65;84], 7); ([71;71], 5)].
+
+Example C03_ex_hypotheses :
+  wf_lines ex_lines = true /\ in_alphabet [67;84;67] = true /\ nodup_lines ex_lines = false /\
+  equal_length ex_lines = false /\ exists t, eager_tables 2 ex_lines = Ok t.
+Proof. vm_compute. repeat split; eauto. Qed.
+Print Assumptions C03_ex_hypotheses.
+
+Example C03_ex_lookups :
+  match eager_tables 2 ex_lines with
+  | Ok t =>
+      lookup t [67;84;67] = Some (3, [84;84;84], 2%nat)        (* CTC -> TTT at 2 *)
+      /\ lookup t [65;65;71] = None                             (* AAG: AAA and AAT tie at 1 *)
+      /\ lookup t [65;65;84] = Some (7, [65;65;84], 0%nat)      (* AAT exact, index of the last line *)
+      /\ lookup t [78;78;65] = Some (4, [65;78;65], 1%nat)      (* NNA -> ANA at 1 *)
+      /\ lookup t [71;78] = Some (5, [71;71], 1%nat)            (* GN -> GG (the only 2-mer) *)
+      /\ lookup t [67;67;67] = None                             (* CCC: nothing within 2 ... TTT is at 3 *)
+  | _ => False
+  end.
+Proof. vm_compute. repeat split. Qed.
+Print Assumptions C03_ex_lookups.
+
+Example C03_ex_lazy :
+  answers (lazy_init 0 ex_lines) [[65;65;71]; [65;65;65]] = [Ans None; Ans (Some (1, [65;65;65], 0%nat))]
+  /\ length (circle alphabet [65;78;65] 2) = 48%nat.
+Proof. vm_compute. split; reflexivity. Qed.
+Print Assumptions C03_ex_lazy.
